@@ -139,13 +139,34 @@ fn kx_pair(i: &Input) -> Outcome {
 /// its twist, non-canonical, high bit set, small order) the Ok/Err decision and the session keys equal libsodium's
 /// crypto_kx_{client,server}_session_keys.  sk = this side's secret key, peer = the other side's public key.
 fn kx_object(i: &Input) -> Outcome {
-    use dryoc::kx::{KeyPair, PublicKey, SecretKey, Session, SessionKey};
     let (sk, peer) = (i.arr::<32>("sk"), i.arr::<32>("peer"));
     let pk = so::scalarmult_base(&sk);
-    let kp = KeyPair {
-        public_key: PublicKey::from(pk),
-        secret_key: SecretKey::from(sk),
+    kx_object_with(&pk, &sk, &peer, false)
+}
+
+/// pk, sk, peer: the same for a key pair IMPORTED with `KeyPair::from_slices(pk, sk)` ("does not check validity"): the
+/// stored public key may be another encoding of sk's point (bit 255 set, non-canonical) or unrelated to sk.  Like
+/// libsodium's crypto_kx_{client,server}_session_keys(.., pk, sk, peer), the session keys hash the public key BYTES the
+/// caller holds (and announced to the peer), not a recomputed key.
+fn kx_object_imported(i: &Input) -> Outcome {
+    let (pk, sk, peer) = (i.arr::<32>("pk"), i.arr::<32>("sk"), i.arr::<32>("peer"));
+    kx_object_with(&pk, &sk, &peer, true)
+}
+
+fn kx_object_with(pk: &[u8; 32], sk: &[u8; 32], peer: &[u8; 32], imported: bool) -> Outcome {
+    use dryoc::kx::{KeyPair, PublicKey, SecretKey, Session, SessionKey};
+    use dryoc::types::Bytes;
+    let (pk, sk, peer) = (*pk, *sk, *peer);
+    let kp = if imported {
+        must_ok(KeyPair::from_slices(&pk, &sk), "KeyPair::from_slices (32-byte public and secret key)")?
+    } else {
+        KeyPair {
+            public_key: PublicKey::from(pk),
+            secret_key: SecretKey::from(sk),
+        }
     };
+    eq("KeyPair public key as stored", &pk, kp.public_key.as_slice())?;
+    eq("KeyPair secret key as stored", &sk, kp.secret_key.as_slice())?;
     let peer_pk = PublicKey::from(peer);
 
     fn judge(what: &str, oracle: &Option<([u8; 32], [u8; 32])>, got: Result<(Vec<u8>, Vec<u8>), String>) -> Outcome {
@@ -200,6 +221,10 @@ pub const C05: Registry = &[
     ("kx_object_small_u_peer_key", kx_object),
     ("kx_object_special_peer_key", kx_object),
     ("kx_object_near_special_peer_key", kx_object),
+    // key pairs imported with KeyPair::from_slices: stored public key = another encoding of sk's point / unrelated to sk
+    ("kx_object_imported_keypair_reencoded_pk", kx_object_imported),
+    ("kx_object_imported_keypair_independent_pk", kx_object_imported),
+    ("kx_object_imported_keypair_honest_pk", kx_object_imported),
     ("scalarmult_base", scalarmult_base),
     ("dh_commutes", dh_commutes),
     ("box_beforenm", beforenm),
@@ -414,6 +439,48 @@ pub fn c05(ctx: &mut Ctx) -> Search {
     }
     for p in &near {
         ctx.run("kx_object_near_special_peer_key", Input::new().b("sk", &sk).b("peer", p))?;
+    }
+
+    // object API with key pairs imported through KeyPair::from_slices (own generator state: the inputs above stay what
+    // they were)
+    let mut rng2 = ctx.rng.clone();
+    const P25519: [u8; 32] = [
+        0xed, 0xff, 0xff, 0xff, 0xff, 0xff, 0xff, 0xff, 0xff, 0xff, 0xff, 0xff, 0xff, 0xff, 0xff, 0xff, 0xff, 0xff, 0xff, 0xff, 0xff, 0xff,
+        0xff, 0xff, 0xff, 0xff, 0xff, 0xff, 0xff, 0xff, 0xff, 0x7f,
+    ];
+    for r in 0..(if t { 400 } else { 40 }) {
+        let (sk, psk) = (rng2.arr::<32>(), rng2.arr::<32>());
+        let (pk, honest_peer) = (so::scalarmult_base(&sk), so::scalarmult_base(&psk));
+        let peer = if r % 4 == 3 { rng2.arr::<32>() } else { honest_peer };
+        ctx.run("kx_object_imported_keypair_honest_pk", Input::new().b("pk", &pk).b("sk", &sk).b("peer", &peer))?;
+        // (a) the same point, other bytes: bit 255 set; u + p when that fits 255 bits (u < 19), with and without bit 255
+        let mut hi = pk;
+        hi[31] |= 0x80;
+        ctx.run("kx_object_imported_keypair_reencoded_pk", Input::new().b("pk", &hi).b("sk", &sk).b("peer", &peer))?;
+        let mut peer_hi = peer;
+        peer_hi[31] |= 0x80;
+        ctx.run("kx_object_imported_keypair_reencoded_pk", Input::new().b("pk", &hi).b("sk", &sk).b("peer", &peer_hi))?;
+        // (b) a stored public key that does not belong to sk: another honest key, random bytes, special encodings
+        let other = match r % 3 {
+            0 => so::scalarmult_base(&rng2.arr::<32>()),
+            1 => rng2.arr::<32>(),
+            _ => points[(r / 3) % points.len()],
+        };
+        ctx.run("kx_object_imported_keypair_independent_pk", Input::new().b("pk", &other).b("sk", &sk).b("peer", &peer))?;
+    }
+    // secret keys whose public key has a non-canonical twin u + p < 2^255, i.e. u < 19: found by search over small secret
+    // keys is hopeless (u is pseudo-random), so the non-canonical encodings are used as the STORED key of a key pair whose
+    // secret key is arbitrary (class b) and, for the DH itself, as peer keys (cases above)
+    let sk = rng2.arr::<32>();
+    let peer = so::scalarmult_base(&rng2.arr::<32>());
+    for u in 0..19u8 {
+        let mut noncanon = P25519;
+        noncanon[0] = 0xed + u; // p + u, no carry: 0xed + 18 = 0xff
+        for top in [0u8, 0x80] {
+            let mut q = noncanon;
+            q[31] |= top;
+            ctx.run("kx_object_imported_keypair_independent_pk", Input::new().b("pk", &q).b("sk", &sk).b("peer", &peer))?;
+        }
     }
     Ok(())
 }
